@@ -172,7 +172,7 @@ def run(module: str, cfg: Path, *, wd: Path, workers: int | str = 16, env: dict 
         spec.write_text(f"---- MODULE {wname} ----\nEXTENDS {module}\n{body}\n====\n")
     meta = wd / f"meta_{module}_{cfg.stem}"
     out = wd / f"{module}_{cfg.stem}.out"
-    java = ["java", "-XX:+UseParallelGC", f"-Xmx{heap}", f"-DTLA-Library={SPECS}"]
+    java = ["java", "-XX:+UseParallelGC", f"-Xmx{heap}", "-Xss16m", f"-DTLA-Library={SPECS}"]
     if dfs:
         java.append("-Dtlc2.tool.queue.IStateQueue=StateDeque")
     cmd = java + ["-cp", CP, "tlc2.TLC", "-workers", str(workers), "-metadir", str(meta),
